@@ -157,7 +157,7 @@ def main():
             na.append({"property_id": pid, "reason": NOT_YET.get(pid, "check not built yet in this session (planned, see DESIGN.md section 5); not a statement that the technique cannot apply")})
     man = {
         "version": 1,
-        "setup_cmd": "/venv/bin/python -c 'import hypothesis' 2>/dev/null || /venv/bin/pip install --no-index --find-links /opt/veriftools/wheels hypothesis",
+        "setup_cmd": "(/venv/bin/python -c 'import hypothesis' 2>/dev/null || /venv/bin/pip install --no-index --find-links /opt/veriftools/wheels hypothesis) && (/venv/bin/pip install -q --no-index --find-links /opt/veriftools/wheels --target /verif/.deps atheris || echo 'atheris not installed: coverage-guided supplement skipped')",
         "hooks": {
             "guard": "OPENPINCH_VERIF",
             "enable": "no source hooks are needed: every property is observed through public return values (pinch_analysis_service(..., is_return_full_results=True) returns the analysed Zone tree); the guard is unused",
